@@ -37,8 +37,10 @@ void *fv_realloc(void *p, size_t n);
 void fv_free(void *p);
 extern int fv_bol_needed, fv_has_lineno, fv_default_rule, fv_cont;
 extern long fv_last_leng, fv_cur_prefix; extern int fv_more_set;
-#ifdef FV_BACKEND_R
+#if defined(FV_BACKEND_R)
 #define FV_PROTO_LAST , void *yyscanner
+#elif defined(FV_BACKEND_C99)
+#define FV_PROTO_LAST , void *fv_ys_
 #else
 #define FV_PROTO_LAST
 #endif
@@ -47,13 +49,15 @@ extern long fv_last_leng, fv_cur_prefix; extern int fv_more_set;
 #endif
 
 extern int fv_bufsize;           /* set from the case file: YY_BUF_SIZE is a run-time value here */
+#ifndef FV_BACKEND_C99           /* the c99 skeleton makes it a constant: %option bufsize is used */
 #define YY_BUF_SIZE fv_bufsize
+#endif
 #ifndef FV_STDIO
 #define YY_INPUT(buf,result,max_size) do { (result) = fv_read((void *) yyin, (buf), (max_size)); } while (0)
 #endif
 #define YY_FATAL_ERROR(msg) fv_fatal(msg)
 
-#ifdef FV_BACKEND_R
+#if defined(FV_BACKEND_R) || defined(FV_BACKEND_C99)
 #define FV_A1 yyscanner
 #define FV_AL , yyscanner
 #define FV_LINENO_EXPR (fv_has_lineno ? (long) yyget_lineno(yyscanner) : -1L)
@@ -63,13 +67,43 @@ extern int fv_bufsize;           /* set from the case file: YY_BUF_SIZE is a run
 #define FV_LINENO_EXPR (fv_has_lineno ? (long) yylineno : -1L)
 #endif
 
-#ifdef FV_USE_REJECT
-#define FV_DO_REJECT yyreject()
+/* the action-level API, spelled per back end (flex rewrites these names in action text for the
+ * c99 back end, but not inside macros) */
+#ifdef FV_BACKEND_C99
+#define FV_TEXT yyget_text(yyscanner)
+#define FV_LENG yyget_leng(yyscanner)
+#define FV_LESS(n) yyless((n), yyscanner)
+#define FV_UNPUT(c) yyunput((char) (c), yyscanner)
+#define FV_BEGIN(s) yybegin((s), yyscanner)
+#define FV_START() yystart(yyscanner)
+#define FV_ATBOL() ((int) yyatbol(yyscanner))
+#define FV_SETBOL(b) yysetbol((b) != 0, yyscanner)
+#define FV_TERMINATE() return 0
+#define FV_YYMORE() yymore(yyscanner)
 #else
-#define FV_DO_REJECT fv_fatal("harness: reject op without reject support")
+#define FV_TEXT yytext
+#define FV_LENG yyleng
+#define FV_LESS(n) yyless(n)
+#define FV_UNPUT(c) yyunput(c)
+#define FV_BEGIN(s) yybegin(s)
+#define FV_START() yystart()
+#define FV_ATBOL() yyatbol()
+#define FV_SETBOL(b) yysetbol(b)
+#define FV_TERMINATE() yyterminate()
+#define FV_YYMORE() yymore()
+#endif
+
+#if defined(FV_USE_REJECT) && defined(FV_BACKEND_C99)
+/* yyreject() has to stand in the action text itself (it is expanded by m4): the action ends in
+ * `if (0) { fv_rej_<i>: yyreject(); }` */
+#define FV_DO_REJECT(i) goto fv_rej_##i
+#elif defined(FV_USE_REJECT)
+#define FV_DO_REJECT(i) yyreject()
+#else
+#define FV_DO_REJECT(i) fv_fatal("harness: reject op without reject support")
 #endif
 #ifdef FV_USE_YYMORE
-#define FV_DO_MORE yymore()
+#define FV_DO_MORE FV_YYMORE()
 #else
 #define FV_DO_MORE fv_fatal("harness: more op without yymore support")
 #endif
@@ -84,42 +118,56 @@ extern int fv_bufsize;           /* set from the case file: YY_BUF_SIZE is a run
 #endif
 
 #define FV_MATCH(i) do { fv_cur_prefix = fv_more_set ? fv_last_leng : 0; fv_more_set = 0; \
-    fv_last_leng = (long) yyleng; \
-    fv_log_match((i), yytext, (long) yyleng, FV_LINENO_EXPR, yystart(), \
-                 fv_bol_needed ? yyatbol() : -1); } while (0)
+    fv_last_leng = (long) FV_LENG; \
+    fv_log_match((i), FV_TEXT, (long) FV_LENG, FV_LINENO_EXPR, FV_START(), \
+                 fv_bol_needed ? FV_ATBOL() : -1); } while (0)
 
 /* ops shared by actions and by section-3 code */
 #define FV_COMMON_OPS(a_, b_) \
-    case FV_OP_BEGIN: yybegin((int)(a_)); break; \
+    case FV_OP_BEGIN: FV_BEGIN((int)(a_)); break; \
     case FV_OP_PUSH: FV_DO_PUSH((int)(a_)); break; \
     case FV_OP_POP: FV_DO_POP(); break; \
     case FV_OP_TOP: FV_DO_TOP(); break; \
-    case FV_OP_START: fv_log_int("start", yystart()); break; \
-    case FV_OP_SETBOL: yysetbol((int)(a_)); break; \
-    case FV_OP_ATBOL: fv_log_int("atbol", yyatbol()); break; \
+    case FV_OP_START: fv_log_int("start", FV_START()); break; \
+    case FV_OP_SETBOL: FV_SETBOL((int)(a_)); break; \
+    case FV_OP_ATBOL: fv_log_int("atbol", FV_ATBOL()); break; \
     case FV_OP_GETLINENO: fv_log_int("lineno", FV_LINENO_EXPR); break;
 
-#define FV_OPS() \
+#define FV_OPS(i) \
     for (;;) { long a_ = 0, b_ = 0; int op_ = fv_next_op(&a_, &b_); \
         if (op_ == FV_OP_END) break; \
         switch (op_) { \
-        case FV_OP_LESS: { int n_ = (int) (fv_cur_prefix + a_ % ((long) yyleng - fv_cur_prefix + 1)); \
-            yyless(n_); fv_last_leng = (long) yyleng; fv_log_text("less", yytext, (long) yyleng); } break; \
+        case FV_OP_LESS: { int n_ = (int) (fv_cur_prefix + a_ % ((long) FV_LENG - fv_cur_prefix + 1)); \
+            FV_LESS(n_); fv_last_leng = (long) FV_LENG; fv_log_text("less", FV_TEXT, (long) FV_LENG); } break; \
         case FV_OP_MORE: FV_DO_MORE; fv_more_set = 1; break; \
-        case FV_OP_UNPUT: yyunput((int) a_); break; \
+        case FV_OP_UNPUT: FV_UNPUT((int) a_); break; \
         case FV_OP_INPUT: { int c_ = yyinput(FV_A1); fv_log_int("in", c_); } break; \
-        case FV_OP_REJECT: FV_DO_REJECT; break; \
+        case FV_OP_REJECT: FV_DO_REJECT(i); break; \
         case FV_OP_RETURN: return (int) a_; \
-        case FV_OP_TERMINATE: yyterminate(); \
+        case FV_OP_TERMINATE: FV_TERMINATE(); \
         case FV_OP_CONT: fv_cont = 1; break; \
         FV_COMMON_OPS(a_, b_) \
         default: fv_buffer_op(op_, a_, b_ FV_AL); break; \
         } }
 
-#define ACT(i) { FV_MATCH(i); FV_OPS(); }
+/* c99: the ops flex has to rewrite stand in the action text (see tools/fv/rt.py); the others: */
+#define FV_OPS_REST(op_, a_, b_) \
+        switch (op_) { \
+        case FV_OP_CONT: fv_cont = 1; break; \
+        case FV_OP_PUSH: FV_DO_PUSH((int)(a_)); break; \
+        case FV_OP_POP: FV_DO_POP(); break; \
+        case FV_OP_TOP: FV_DO_TOP(); break; \
+        case FV_OP_GETLINENO: fv_log_int("lineno", FV_LINENO_EXPR); break; \
+        default: fv_buffer_op(op_, a_, b_ FV_AL); break; \
+        }
+
+#define ACT(i) { FV_MATCH(i); FV_OPS(i); }
+#ifndef FV_BACKEND_C99
 /* the default rule's action (ECHO) is observed like any other action */
 /* it is not user code, so it takes no script */
 #define yyecho() { fv_default_rule = 1; FV_MATCH(YY_NUM_RULES); }
-#define ACT_EOF(k) { fv_log_eof(yystart()); fv_cont = 0; FV_OPS(); if (!fv_cont) yyterminate(); fv_cont = 0; }
+#endif
+/* (c99: yyecho is a function of the skeleton; the generated rule set ends in an explicit catch-all) */
+#define ACT_EOF(k) { fv_log_eof(FV_START()); fv_cont = 0; FV_OPS(0); if (!fv_cont) FV_TERMINATE(); fv_cont = 0; }
 
 #endif
